@@ -36,9 +36,10 @@ RULE = ("rand: dataset of 1..300 events with 2..5 scalar features (dyadic-grid /
         "vertices on the data grid, on data points or random. enum: ALL operation sequences of "
         "length <= 2 (quick) / <= 3 (thorough, 1 884 per environment) over the 12-operation alphabet "
         "{apply, apply_force, range_set, range_rev, range_del, range_eq, poly_add_or_edit, "
-        "poly_remove, poly_invert, toggle_invalid, toggle_enable, reset} in 4 environments (plain; "
+        "poly_remove, poly_invert, toggle_invalid, toggle_enable, reset} in 5 environments (plain; "
         "limit + manual exclusions; integer feature + invalid removal; range and polygon already "
-        "applied), each followed by a final apply. Every history ends with apply, re-apply and a "
+        "applied; float32 feature with bounds one float64 ulp inside data values), each followed "
+        "by a final apply. Every history ends with apply, re-apply and a "
         "comparison with a fresh dataset. Non-trivial = >= 2 judged applies with a settings change "
         "between them; distinct by (kind, environment/sequence or full history)")
 ASSUMPTIONS = [
@@ -60,7 +61,7 @@ ASSUMPTIONS = [
     "and reproducibility (re-application, fresh dataset) are judged",
 ]
 LEVEL_TEXT = ("Exhaustive over all operation sequences of length <= 3 over the stated 12-operation "
-              "alphabet in 4 environments (thorough), exploration beyond: thousands of random "
+              "alphabet in 5 environments (thorough), exploration beyond: thousands of random "
               "histories of up to 40 operations. On every normal return of the real Filter.update "
               "the four filter arrays were compared with a stateless, exact evaluation of the "
               "settings in force at that moment. Not a proof for all histories/data.")
@@ -81,7 +82,7 @@ K_RAND, K_ENUM = 0, 1
 ALPHABET = ["apply", "apply_force", "range_set", "range_rev", "range_del", "range_eq",
             "poly_add_or_edit", "poly_remove", "poly_invert", "toggle_invalid",
             "toggle_enable", "reset"]
-N_ENV = 4
+N_ENV = 5
 
 
 def _n_seq(maxlen):
@@ -396,7 +397,7 @@ def _judge_update(ctx, flt, rtdc_ds, force):
                   lambda: _witness(cfg, polys, manual, observed, spec, detail, force, stale,
                                    variant_fit),
                   finding=finding,
-                  message=(f"filter.{mon.split('_')[0]} differs from the stateless evaluation of "
+                  message=(f"{mon}: the filter arrays differ from the stateless evaluation of "
                            f"the current settings: {detail}"))
 
 
@@ -1038,8 +1039,8 @@ def _random_op(c, rng):
 
 # ------------------------------------------------------------------------------- enumeration
 def _enum_dataset(ctx, env):
-    """fixed structure, values from (seed, env): 12 events, ties, NaN/inf (env 0, 1, 3) or an
-    integer feature (env 2)"""
+    """fixed structure, values from (seed, env): 12 events, ties, NaN/inf (env 0, 1, 3), an
+    integer feature (env 2) or a float32 feature (env 4)"""
     rng = ctx.rng([K_ENUM, 10 ** 6 + env], salt=1)
     n = 12
     y = rng.integers(0, 17, n) / 4.0
@@ -1048,6 +1049,12 @@ def _enum_dataset(ctx, env):
         data = {"fl1_npeaks": x, "deform": y.copy()}
         data["deform"][int(rng.integers(0, n))] = np.nan
         return n, data, {"fl1_npeaks": "int", "deform": "grid"}, "fl1_npeaks", "deform"
+    if env == 4:
+        # single-precision feature whose values are not dyadic; the enumerated ranges use bounds
+        # one float64 ulp inside two data values, which therefore lie outside the range
+        x = (rng.integers(1, 40, n) / 10.0).astype(np.float32)
+        return n, {"area_um": x, "deform": y}, {"area_um": "f32", "deform": "grid"}, \
+            "area_um", "deform"
     x = rng.integers(0, 17, n) / 4.0
     x[int(rng.integers(0, 4))] = np.nan
     x[int(rng.integers(4, 8))] = np.inf
@@ -1068,6 +1075,9 @@ def run_enum(ctx, idx):
         R1 = (q(0.25), q(0.75))                 # ties with data values on both bounds
         R2 = (q(0.9), q(0.1))                   # reversed, different values
         REQ = q(0.5)
+        if env == 4:
+            R1 = (float(np.nextafter(R1[0], np.inf)), float(np.nextafter(R1[1], -np.inf)))
+            R2 = (float(np.nextafter(R2[0], -np.inf)), float(np.nextafter(R2[1], np.inf)))
         P1 = np.array([[0.5, 0.5], [3.0, 0.5], [3.0, 3.0], [0.5, 3.0]])
         P2 = np.array([[1.0, 0.0], [4.0, 2.0], [2.0, 4.0], [0.0, 2.0], [2.0, 2.0]])
         pf = None
